@@ -41,7 +41,7 @@ def build(shape, carrier='PartialEq', with_eq=False, name='Ty', lawful=False):
             a = {}
             if p is not None:
                 a[carrier] = dict(p)
-            f = F(ty, S.FNAMES[i] if vk == 'named' else None, **a)
+            f = F(ty, S.fname(i, k, len(fl)) if vk == 'named' else None, **a)
             f.code = c
             fields.append(f)
         variants.append(V(S.VNAMES[k], vk, fields))
